@@ -84,7 +84,13 @@ pub fn case_eval(ctx: &mut Ctx, case: &Value) {
         info.player_regret(PlayerNum::One),
         info.player_regret(PlayerNum::Two),
     ];
-    let sc = scale_of(&t);
+    // tolerances follow the magnitude of the numbers this evaluation adds up (|payoff| x reach),
+    // not the largest payoff, when the case asks for it (payoffs of 1e308 behind reaches of 1e-308)
+    let sc = if case["effective_scale"].as_bool().unwrap_or(false) {
+        effective_scale(&t, &beh_of_named(&prof)).max(1e-300)
+    } else {
+        scale_of(&t)
+    };
     let tol = 1e-9 * sc;
     // "every valid strategy profile": the same profile loaded through the other import function
     // is the same profile
@@ -183,6 +189,24 @@ pub fn c01(ctx: &mut Ctx) -> String {
         if i < 2 {
             ctx.sample(json!({"family": fam, "nodes": t.size(), "profile_kind": format!("{:?}", kind), "tree_line": t.to_line()}));
         }
+        case_eval(ctx, &case);
+    }
+    // stakes of 1e308 behind reaches of 1e-308
+    for i in 0..(if ctx.thorough { 400u64 } else { 40 }) {
+        if ctx.out_of_time() {
+            break;
+        }
+        let t = needle(&mut ctx.rng);
+        ctx.stat("family_needle");
+        let mut prof = gen_profile(&mut ctx.rng, &t, if i % 2 == 0 { ProfKind::Random } else { ProfKind::Uniform });
+        // the opponent's corner: two probabilities of about 1e-154 in a row
+        for (l, acts) in prof[1].iter_mut() {
+            if (*l == 5 || *l == 6) && acts.len() == 2 {
+                acts[0].1 = 1.0;
+                acts[1].1 = *ctx.rng.pick(&[1e-154, 2e-155, 1e-150]);
+            }
+        }
+        let case = json!({"op": "eval", "tree": t.to_json(), "prof": prof_json(&prof), "effective_scale": true});
         case_eval(ctx, &case);
     }
     "games from the mixed stream (obs-* valid-by-construction imperfect-information games, adversarial shapes, Kuhn poker) x profiles {random, pure, with zeros, uniform, unnormalised}; distinct = hash of (tree, profile); non-trivial = at least two decision infosets and five nodes".to_string()
